@@ -47,15 +47,35 @@ def run_history(system, history):
     return world, model, None, None
 
 
-def explore(system, depth, audit_depth=0, max_states=None):
+def first_ops(system, n=1):
+    """All enabled operation sequences of length n from the initial state (to shard the search)."""
+    out = [()]
+    for _ in range(n):
+        nxt = []
+        for h in out:
+            m = system.initial_model()
+            for op in h:
+                m, _ = system.step_model(m, op)
+            nxt += [h + (op,) for op in system.enabled(m)]
+        out = nxt
+    return out
+
+
+def explore(system, depth, audit_depth=0, max_states=None, prefix=()):
+    """BFS from the state reached by `prefix` (default: the initial state) up to `depth` operations
+    in total.  With a prefix, the prefix itself is executed and checked first."""
     res = Result()
-    w0 = system.fresh()
-    m0 = system.initial_model()
+    w0, m0, problem, at = run_history(system, tuple(prefix))
+    if problem is not None:
+        res.violations.append((problem[0], tuple(prefix), problem[1]))
+        system.close(w0)
+        return res
     k0 = (system.impl_key(w0), system.model_key(m0))
     system.close(w0)
-    seen = {k0: ()}
-    frontier = deque([()])
+    seen = {k0: tuple(prefix)}
+    frontier = deque([tuple(prefix)])
     res.states = 1
+    res.transitions = 1 if prefix else 0
     audit_bucket = {}
     while frontier:
         hist = frontier.popleft()
